@@ -1,3 +1,158 @@
-import ApiFu.C11.Model
+/-
+  C11 — mutation root fields execute strictly serially in document order.
+  Theorems over the executor model with forceSerial (`ApiFu.C02.execSerial`, reached through
+  `execute` for `rq.mutation = true`), for every mutation, every async subset (`Mode` per field
+  invocation, at any depth) and every schedule. Proof scripts: ApiFu/C11/Lemmas.lean.
+
+  Full statement of the property (DESIGN.md §7 C11):
+
+      mutation_log_serial : ∀ mutation with root keys k₁…kₙ, ∀ A, ∀ σ,
+          log (run) = log₁ ++ … ++ logₙ with every event of logᵢ under kᵢ,
+          and data lists k₁…kₙ in that order
+
+  It does NOT hold for the code as it is (finding F-11a, `strict_serial_fails` below): when a
+  selection set beneath root field kᵢ fails early (After/Join resolve to the first error without
+  waiting for their other children) a promise of kᵢ may be abandoned while still outstanding, and
+  the idle handler fulfils it during the block of a later root field. What is proved:
+
+    * `mutation_log_serial_partial` — the log is log₁ ++ … ++ logₙ where logᵢ contains resolver
+      starts only under kᵢ, `Set`s only beneath kᵢ (or of root slot i with key kᵢ), and
+      fulfilments under kᵢ *or of a promise that was already outstanding when logᵢ began*; such
+      promises lie under earlier keys. Hence no resolver of a later root field, and no fulfilment
+      of one of its promises, ever happens before the earlier root fields have returned.
+    * `mutation_starts_strictly_serial` — restricted to resolver starts the statement holds in
+      full (every start of logᵢ is under kᵢ).
+    * `mutation_root_slots_in_document_order` — root slot j is only ever set with key kⱼ.
+  Missing for the full statement: "no promise is outstanding when a root field returns", which
+  is false for the code (F-11a).
+-/
+import ApiFu.C11.Lemmas
+
 namespace ApiFu.C11
+open ApiFu.C02
+
+/-- **mutation_log_serial_partial.** For every mutation, async subset and schedule, the resolver
+    event log (starts and fulfilments, in order) of the whole execution splits into consecutive
+    blocks, one per root field in document order (execution may stop early after a failing
+    non-null root field): the block of `k` has resolver starts only under `k` and fulfilments
+    only under `k` or of promises that were already outstanding — abandoned by an earlier root
+    field — when the block began. -/
+theorem mutation_log_serial_partial (rq : Request) (hm : rq.mutation = true) :
+    SerialLog (rootKeys rq.fields) [] (events (execute rq).2.log) := by
+  obtain ⟨l, hl, hs, _⟩ := execSerial_serial (Field.invocationsL rq.fields + 1) rq.fields rq.fields.length 0
+    rq.sched {}
+  unfold execute
+  simp only [hm, if_true]
+  rcases hx : execSerial (Field.invocationsL rq.fields + 1) rq.fields rq.fields.length 0 rq.sched {} with ⟨w, s', S⟩
+  rw [hx] at hl
+  simp only at hl
+  have hlog : S.log = l := by simpa using hl
+  have key : SerialLog (rootKeys rq.fields) [] (events S.log) := by rw [hlog]; exact hs.events
+  cases w with
+  | done r =>
+    cases r with
+    | ok v => simpa using key
+    | err e => simp only [Store.push, events_append]; simpa [events] using key
+  | stuck => simpa using key
+  | outOfFuel => simpa using key
+
+/-- **mutation_starts_strictly_serial.** Restricted to resolver calls, the full statement holds:
+    the sequence of resolver starts is start-block₁ ++ … ++ start-blockₙ with every start of
+    blockᵢ under kᵢ — no resolver belonging to a later root field (or to its sub-selections at any
+    depth) is called before every earlier root field has returned, and none belonging to an earlier
+    one is called afterwards. -/
+theorem mutation_starts_strictly_serial (rq : Request) (hm : rq.mutation = true) :
+    StrictSerial (rootKeys rq.fields) (starts (execute rq).2.log) := by
+  have h := mutation_log_serial_partial rq hm
+  have hst : ∀ l, starts (events l) = starts l := by
+    intro l; induction l with
+    | nil => rfl
+    | cons e l ih => cases e <;> simp [events, starts, ih]
+  rw [← hst]
+  generalize events (execute rq).2.log = l at h
+  generalize rootKeys rq.fields = keys at h ⊢
+  generalize ([] : List Path) = pending at h
+  induction h with
+  | stop keys pending => exact StrictSerial.stop _
+  | block k keys pending pending' blk rest hb _ _ ih =>
+    rw [starts_append]
+    refine StrictSerial.block k keys _ _ ?_ ih
+    intro e he
+    obtain ⟨hmem, p, rfl⟩ := mem_starts e blk he
+    rcases hb _ hmem with h | h
+    · exact Or.inl (by simpa [evOk] using h)
+    · obtain ⟨j, v, h⟩ := h; cases h
+
+/-- **mutation_root_slots_in_document_order.** Root slot `j` of the response is only ever set with
+    the response key of root field `j`: the data lists the root keys in document order. -/
+theorem mutation_root_slots_in_document_order (rq : Request) (hm : rq.mutation = true) :
+    RootWrites 0 (rootKeys rq.fields) (execute rq).2.log := by
+  obtain ⟨l, hl, _, hr⟩ := execSerial_serial (Field.invocationsL rq.fields + 1) rq.fields rq.fields.length 0
+    rq.sched {}
+  unfold execute
+  simp only [hm, if_true]
+  rcases hx : execSerial (Field.invocationsL rq.fields + 1) rq.fields rq.fields.length 0 rq.sched {} with ⟨w, s', S⟩
+  rw [hx] at hl
+  simp only at hl
+  have hlog : S.log = l := by simpa using hl
+  have key : RootWrites 0 (rootKeys rq.fields) S.log := by rw [hlog]; exact hr
+  cases w with
+  | done r =>
+    cases r with
+    | ok v => simpa using key
+    | err e =>
+      intro j k v hmem
+      simp only [Store.push] at hmem
+      rcases List.mem_append.mp hmem with h | h
+      · exact key j k v h
+      · simp at h
+  | stuck => simpa using key
+  | outOfFuel => simpa using key
+
+/-! ### The full statement fails: F-11a
+
+`mutation { a { x y } b }`, `a.x` answered through a promise, `a.y : Int!` resolving null
+synchronously, `b` answered through a promise: `a`'s selection set fails at once, the promise of
+`a.x` is abandoned, and the first idle round — during the block of `b` — fulfils it. -/
+
+def f11a : Request :=
+  { mutation := true,
+    fields := [.mk "a" false .sync none (.object [.mk "x" false .promise none (.scalar "1"),
+                                                   .mk "y" true .sync none .null]),
+               .mk "b" false .promise none (.scalar "2")],
+    sched := [] }
+
+/-- The event log of the F-11a request: the fulfilment of `a.x` comes after the start of `b`. -/
+theorem f11a_events : events (execute f11a).2.log =
+    [.start [.key "a"], .start [.key "a", .key "x"], .start [.key "a", .key "y"], .start [.key "b"],
+     .fulfil [.key "a", .key "x"], .fulfil [.key "b"]] := by
+  simp [execute, f11a, execSerial, execField, catchIfNullable, mkMap, mkAfter, scanReady, mkMapOkValue, mkMapOkToAny,
+    Field.invocationsL, Comp.invocations, waitLoop, poll, pollAll, Store.push, idleRound, deliver, picks,
+    applyK, complete, execFields, nonNullWrap, applyMap, applyOk, Fut.weight, Fut.weightO, Comp.weight, events,
+    Val.isNull, List.replicate]
+
+/-- **strict_serial_fails (negation witness, F-11a).** The strict form of the property — every
+    event of blockᵢ under kᵢ — is false for the F-11a request: the start of `b` is followed by the
+    fulfilment of `a.x`. -/
+theorem strict_serial_fails : ¬ StrictSerial (rootKeys f11a.fields) (events (execute f11a).2.log) := by
+  rw [f11a_events]
+  intro h
+  have hk : rootKeys f11a.fields = ["a", "b"] := by simp [rootKeys, f11a, Field.key]
+  rw [hk] at h
+  have := h.after_foreign
+    (pre := [.start [.key "a"], .start [.key "a", .key "x"], .start [.key "a", .key "y"]])
+    (e := .start [.key "b"]) (post := [.fulfil [.key "a", .key "x"], .fulfil [.key "b"]]) rfl
+    (by
+      intro h
+      rcases h with h | ⟨j, v, h⟩
+      · simp [evOk, under] at h
+      · cases h)
+    (.fulfil [.key "a", .key "x"]) (by simp)
+  obtain ⟨k', hk', h'⟩ := this
+  simp only [List.mem_singleton] at hk'
+  subst hk'
+  rcases h' with h' | ⟨j, v, h'⟩
+  · simp [evOk, under] at h'
+  · cases h'
+
 end ApiFu.C11
